@@ -884,3 +884,199 @@ Proof.
   - repeat constructor; try (apply lit_ok; vm_compute; reflexivity).
   - split; [reflexivity|]. repeat constructor. apply lit_ok. vm_compute. reflexivity.
 Qed.
+
+(* ================= end-to-end queries: '<' of expressions, ties, windows, integer arithmetic ================= *)
+
+(* ---------- the operator '<' of expressions (sparql_compare) and the relation lt_sparql ---------- *)
+Theorem sparql_compare_lt_iff c64 c32 a b :
+  sparql_compare c64 c32 is_lt a b = Some true <-> lt_sparql c64 c32 a b = Some true.
+Proof.
+  unfold sparql_compare, lt_sparql.
+  assert (G : forall o : option comparison,
+            option_map is_lt o = Some true <->
+            option_map (fun c => match c with Lt => true | _ => false end) o = Some true)
+    by (intros [[]|]; simpl; tauto).
+  destruct (val a) as [[n1|s1 t1|b1|d1]|] eqn:Ea; try apply G.
+  destruct (val b) as [[n2|s2 t2|b2|d2]|] eqn:Eb; try apply G.
+  unfold sparql_cmp. rewrite Ea, Eb. unfold value_partial_cmp. simpl.
+  destruct (num_partial_cmp c64 c32 n1 n2) as [[]|]; simpl; split; congruence.
+Qed.
+Theorem order_by_respects_compare c64 c32 f64 f32 a b :
+  conv_ok c64 f64 -> conv_ok c32 f32 ->
+  item_ok a -> item_ok b -> item_fmt f64 f32 a -> item_fmt f64 f32 b ->
+  sparql_compare c64 c32 is_lt a b = Some true -> order_by a b = Lt.
+Proof.
+  intros H64 H32 Pa Pb Fa Fb H. apply sparql_compare_lt_iff in H.
+  apply (order_by_respects_lt c64 c32 f64 f32); auto.
+Qed.
+(* two numbers are never a type error for '<' (NaN: false) *)
+Theorem sparql_compare_numbers_total c64 c32 pred a b x y :
+  val a = Some (VNum x) -> val b = Some (VNum y) -> sparql_compare c64 c32 pred a b <> None.
+Proof. intros Ea Eb. unfold sparql_compare. rewrite Ea, Eb. discriminate. Qed.
+(* the checker of the harness accepts a 'true' only if ORDER BY puts the pair in that order *)
+Theorem lt_entry_ok_true k1 k2 : lt_entry_ok k1 k2 1 = true -> key_cmp order_by k1 k2 = Lt.
+Proof.
+  unfold lt_entry_ok. rewrite N.eqb_refl. intros H. apply andb_prop in H as [H _].
+  destruct (key_cmp order_by k1 k2); congruence.
+Qed.
+
+(* ---------- ties: equal values written differently, the next key decides ---------- *)
+Lemma num_exact_cmp_some_self a b c : num_exact_cmp a b = Some c ->
+  (exists x, num_key a = Some x) /\ (exists y, num_key b = Some y).
+Proof.
+  rewrite num_exact_cmp_key. destruct (num_key a), (num_key b); try discriminate. eauto.
+Qed.
+Theorem order_by_value_tie a b x y :
+  val a = Some x -> val b = Some y -> is_literal (tm a) = true -> is_literal (tm b) = true ->
+  value_order_by_cmp x y = Some Eq -> order_by a b = Eq.
+Proof.
+  intros Ea Eb La Lb H.
+  assert (Hc : value_order_by_class x = value_order_by_class y).
+  { destruct x as [n1|s1 [t1|]|[b1|]|[d1|]]; destruct y as [n2|s2 [t2|]|[b2|]|[d2|]];
+      try (simpl in H; discriminate H); try reflexivity.
+    unfold value_order_by_cmp, value_cmp_with in H.
+    destruct (num_exact_cmp_some_self _ _ _ H) as [[u Hu] [v Hv]].
+    rewrite !num_class, Hu, Hv. reflexivity. }
+  unfold order_by, class_cmp, item_class, in_class_cmp. rewrite Ea, Eb, Hc, H.
+  rewrite !literal_rank by assumption. rewrite !N.compare_refl. reflexivity.
+Qed.
+Theorem equal_values_defer_to_next_key d ds a b t1 t2 x y :
+  val a = Some x -> val b = Some y -> is_literal (tm a) = true -> is_literal (tm b) = true ->
+  value_order_by_cmp x y = Some Eq ->
+  cmp_bindings_with order_by (d :: ds) (Some a :: t1) (Some b :: t2) = cmp_bindings_with order_by ds t1 t2.
+Proof.
+  intros Ea Eb La Lb H. rewrite later_keys_break_ties. simpl key_cmp.
+  rewrite (order_by_value_tie a b x y) by assumption. destruct d; reflexivity.
+Qed.
+(* 1 / 1.0 / 1e0 (double) / 1 (float), one instant in two time zones, both lexical forms of true *)
+Example equal_values_witnesses :
+  value_order_by_cmp (VNum (NativeInt 1)) (VNum (Decimal 10 1)) = Some Eq
+  /\ value_order_by_cmp (VNum (Decimal 10 1)) (VNum (Double (FFin false 4503599627370496 (-52)))) = Some Eq
+  /\ value_order_by_cmp (VNum (Double (FFin false 4503599627370496 (-52)))) (VNum (Float (FFin false 8388608 (-23)))) = Some Eq
+  /\ value_order_by_cmp (VNum (BigInt 3)) (VNum (NativeInt 3)) = Some Eq
+  /\ value_order_by_cmp (VDate (Some (Timezoned 1726574400 0))) (VDate (Some (Timezoned 1726574400 0))) = Some Eq
+  /\ value_order_by_cmp (VBool (Some true)) (VBool (Some true)) = Some Eq
+  /\ (* but not 0.1 as a decimal and as a double *)
+     value_order_by_cmp (VNum (Decimal 1 1)) (VNum (Double (FFin false 7205759403792794 (-56)))) = Some Lt.
+Proof. repeat split; vm_compute; reflexivity. Qed.
+
+(* ---------- integer arithmetic and the order of computed keys ---------- *)
+Theorem int_arith_value o a b r : int_arith o a b = Some r ->
+  exists x y, int_val a = Some x /\ (o = ONeg \/ int_val b = Some y) /\ int_val r = Some (z_op o x y).
+Proof.
+  destruct o; simpl; destruct a as [x|x|? ?|?|?]; try discriminate;
+    try (destruct b as [y|y|? ?|?|?]; try discriminate; intros H; injection H as <-; exists x, y;
+         simpl; repeat split; auto; match goal with |- context [if ?c then _ else _] => destruct c end; reflexivity).
+  - intros H; injection H as <-. exists x, 0%Z. simpl. repeat split; auto. destruct (fits_isize (- x)); reflexivity.
+  - intros H; injection H as <-. exists x, 0%Z. simpl. auto.
+Qed.
+(* a native result always fits in an isize; a BigInt result need not be out of that range *)
+Theorem int_arith_native_fits o x y z :
+  int_arith o (NativeInt x) (NativeInt y) = Some (NativeInt z) -> fits_isize z = true.
+Proof.
+  destruct o; simpl; intros H;
+    match type of H with context [if ?c then _ else _] => destruct c eqn:E end; congruence.
+Qed.
+Example int_arith_not_normalised :
+  int_arith OAdd (BigInt 9223372036854775808) (NativeInt (-9223372036854775805)) = Some (BigInt 3)
+  /\ int_arith OMul (BigInt 9223372036854775808) (NativeInt 0) = Some (BigInt 0)
+  /\ int_arith OSub (NativeInt (-9223372036854775808)) (NativeInt 1) = Some (BigInt (-9223372036854775809))
+  /\ int_arith ONeg (NativeInt (-9223372036854775808)) (NativeInt 0) = Some (BigInt 9223372036854775808)
+  /\ int_arith ONeg (BigInt 9223372036854775808) (NativeInt 0) = Some (BigInt (-9223372036854775808))
+  /\ fits_isize 3 = true /\ fits_isize (-9223372036854775808) = true.
+Proof. repeat split; vm_compute; reflexivity. Qed.
+
+Lemma Qcompare_int x y : Qcompare (Qmake x 1) (Qmake y 1) = Z.compare x y.
+Proof. unfold Qcompare. simpl. rewrite !Z.mul_1_r. reflexivity. Qed.
+(* ORDER BY sorts integers by their value, whatever their representation (NativeInt / BigInt, in
+   or out of the isize range) and whatever the spelling of the terms *)
+Theorem computed_int_keys_order a b n1 n2 x y :
+  val a = Some (VNum n1) -> val b = Some (VNum n2) ->
+  is_literal (tm a) = true -> is_literal (tm b) = true ->
+  int_val n1 = Some x -> int_val n2 = Some y -> order_by a b = Z.compare x y.
+Proof.
+  intros Ea Eb La Lb Hx Hy.
+  assert (K1 : num_key n1 = Some (EFin (Qmake x 1))) by (destruct n1; simpl in *; congruence).
+  assert (K2 : num_key n2 = Some (EFin (Qmake y 1))) by (destruct n2; simpl in *; congruence).
+  unfold order_by, class_cmp, item_class, in_class_cmp. rewrite Ea, Eb.
+  rewrite !num_class, K1, K2. rewrite !literal_rank by assumption. rewrite !N.compare_refl.
+  unfold value_order_by_cmp, value_cmp_with. rewrite num_exact_cmp_key, K1, K2. simpl.
+  apply Qcompare_int.
+Qed.
+Corollary order_by_int_repr_indep t z b :
+  order_by (mkItem t (Some (VNum (BigInt z)))) b = order_by (mkItem t (Some (VNum (NativeInt z)))) b
+  /\ order_by b (mkItem t (Some (VNum (BigInt z)))) = order_by b (mkItem t (Some (VNum (NativeInt z)))).
+Proof.
+  unfold order_by, class_cmp, item_class, in_class_cmp, value_order_by_cmp, value_cmp_with. simpl.
+  split; destruct (val b) as [[n|s [u|]|[c|]|[d|]]|]; try reflexivity;
+    rewrite ?num_class, ?num_exact_cmp_key; reflexivity.
+Qed.
+(* the keys  h + (d - h)  computed by the engine are sorted as the integers d *)
+Corollary cancelling_sums_sorted_by_value a b ra rb h1 h2 d1 d2 :
+  int_arith OAdd (BigInt h1) (NativeInt (d1 - h1)) = Some ra ->
+  int_arith OAdd (NativeInt d2) (NativeInt h2) = Some rb ->
+  val a = Some (VNum ra) -> val b = Some (VNum rb) ->
+  is_literal (tm a) = true -> is_literal (tm b) = true ->
+  order_by a b = Z.compare d1 (d2 + h2).
+Proof.
+  intros H1 H2 Ea Eb La Lb.
+  apply int_arith_value in H1 as (x1 & y1 & X1 & [Y1|Y1] & R1); [discriminate|].
+  apply int_arith_value in H2 as (x2 & y2 & X2 & [Y2|Y2] & R2); [discriminate|].
+  simpl in X1, Y1, X2, Y2. injection X1 as <-. injection Y1 as <-. injection X2 as <-. injection Y2 as <-.
+  rewrite (computed_int_keys_order a b ra rb _ _ Ea Eb La Lb R1 R2). simpl. f_equal. lia.
+Qed.
+
+(* ---------- windows (LIMIT / OFFSET above ORDER BY) and DISTINCT keep the order ---------- *)
+Lemma forallb_firstn {A} (f : A -> bool) n l : forallb f l = true -> forallb f (firstn n l) = true.
+Proof.
+  revert l; induction n; intros [|x l]; simpl; auto. intros H. apply andb_prop in H as [-> H]. simpl. auto.
+Qed.
+Lemma all_pairs_le_firstn {A} (leb : A -> A -> bool) n l :
+  all_pairs_le leb l = true -> all_pairs_le leb (firstn n l) = true.
+Proof.
+  revert l; induction n; intros [|x l]; simpl; auto. intros H. apply andb_prop in H as [H1 H2].
+  rewrite forallb_firstn by assumption. simpl. auto.
+Qed.
+Lemma all_pairs_le_skipn {A} (leb : A -> A -> bool) n l :
+  all_pairs_le leb l = true -> all_pairs_le leb (skipn n l) = true.
+Proof.
+  revert l; induction n; intros [|x l]; simpl; auto. intros H. apply andb_prop in H as [_ H]. auto.
+Qed.
+Theorem window_sorted descs start len rs :
+  sorted_ok descs rs = true -> sorted_ok descs (window start len rs) = true.
+Proof.
+  unfold sorted_ok, window. intros H. destruct len.
+  - apply all_pairs_le_firstn, all_pairs_le_skipn, H.
+  - apply all_pairs_le_skipn, H.
+Qed.
+Lemma rows_at_window rows start len out :
+  rows_at rows (window start len out) = window start len (rows_at rows out).
+Proof.
+  unfold rows_at, window. destruct len; rewrite ?skipn_map, ?firstn_map; reflexivity.
+Qed.
+(* the window of an accepted complete result is sorted for the model's comparator *)
+Theorem window_of_sorted_result descs rows full start len :
+  rows_ok descs rows full = true -> sorted_ok descs (rows_at rows (window start len full)) = true.
+Proof.
+  unfold rows_ok. intros H. apply andb_prop in H as [_ H].
+  rewrite rows_at_window. apply window_sorted. exact H.
+Qed.
+Theorem window_length {A} start len (l : list A) :
+  List.length (window start len l) =
+  let rest := (List.length l - N.to_nat start)%nat in
+  match len with Some n => Nat.min (N.to_nat n) rest | None => rest end.
+Proof.
+  unfold window. destruct len; simpl; rewrite ?firstn_length, skipn_length; reflexivity.
+Qed.
+(* removing solutions from a sorted sequence (DISTINCT, FILTER above the sort) keeps it sorted *)
+Lemma forallb_filter {A} (f g : A -> bool) l : forallb f l = true -> forallb f (filter g l) = true.
+Proof.
+  induction l as [|x l IH]; simpl; auto. intros H. apply andb_prop in H as [H1 H2].
+  destruct (g x); simpl; rewrite ?H1; auto.
+Qed.
+Theorem filter_sorted descs (keep : row -> bool) rs :
+  sorted_ok descs rs = true -> sorted_ok descs (filter keep rs) = true.
+Proof.
+  unfold sorted_ok. induction rs as [|x l IH]; simpl; auto. intros H. apply andb_prop in H as [H1 H2].
+  destruct (keep x); simpl; auto. rewrite forallb_filter by assumption. simpl. auto.
+Qed.
